@@ -4,4 +4,4 @@ Extraction Language OCaml.
 Extraction "C18_m.ml" sample_uniform sample_gauss sample_poisson sample_poisson_list inverse_transform
   rejection_sampling rejection_sampling_2d sample_metropolis sample_metropolis_2d
   inverse_transform_st rejection_sampling_st rejection_sampling_2d_st sample_metropolis_st sample_metropolis_2d_st
-  metro_imax metro_kept metro_consumed metro2_consumed Z.of_nat Z.to_nat.
+  run_calls metro_imax metro_kept metro_consumed metro2_consumed Z.of_nat Z.to_nat.
